@@ -256,8 +256,9 @@ def run_behaviour(cli, base, seed, steps):
         w.close()
 
 
-def pipe_loop(cli, base, seed, mode, dim, n):
-    """setup once, then n x (gen-test-params | prove | verify): many independently randomised proofs."""
+def pipe_loop(cli, base, seed, mode, dim, n, docs=None):
+    """setup once, then n x (params | prove | verify): many independently randomised proofs.  docs: parameter documents (text, hash) of
+    valid batches in the tool's own notation, cycled through; without them the fixed gen-test-params vector is used."""
     d, b = DIMS[dim]
     w = World(cli, base, seed)
     bad = []
@@ -268,7 +269,9 @@ def pipe_loop(cli, base, seed, mode, dim, n):
             return [dict(iteration=-1, detail="setup failed: " + err[-300:])], 0
         rc, params, err = w.run(["gen-test-params", "--mode", mode, "--tree-depth", str(d), "--batch-size", str(b)])
         h = json.loads(params)["inputHash"]
+        fixed = (params, h)
         for i in range(n):
+            params, h = fixed if not docs or i == 0 else docs[(i - 1) % len(docs)]
             rc, proof, err = w.run(["prove", "--mode", mode, "--keys-file", w.path("k")], stdin=params)
             if rc != 0:
                 bad.append(dict(iteration=i, detail="prove failed on generated parameters: " + err[-300:]))
@@ -279,7 +282,7 @@ def pipe_loop(cli, base, seed, mode, dim, n):
                 short += 1
             rc, out, err = w.run(["verify", "--mode", mode, "--keys-file", w.path("k"), "--input-hash", h], stdin=proof)
             if rc != 0:
-                bad.append(dict(iteration=i, detail="verify exits non-zero for a proof `prove` just wrote for the same keys and hash (coordinates %s): %s" % (coords, err[-200:]), proof=proof))
+                bad.append(dict(iteration=i, detail="verify exits non-zero for a proof `prove` just wrote for the same keys and hash %s (coordinates %s): %s" % (h, coords, err[-200:]), proof=proof))
                 break
     finally:
         w.close()
@@ -366,8 +369,14 @@ def run(ctx):
     # many independently generated proofs through the pipe (short / unusual coordinates occur by chance)
     loops = [("deletion", "A"), ("insertion", "A"), ("deletion", "B"), ("insertion", "B")] * (2 if ctx.quick else 4)
     per = 12 if ctx.quick else 60
+    # valid batches of every (mode, dims) whose input hash, as the tool prints it, has an odd number of hex digits / a zero top byte / neither
+    docs = {}
+    for mode, dim in sorted(set(loops)):
+        d, b = DIMS[dim]
+        out = ctx.run_vh(["gen-params"], dict(mode=mode, depth=d, batch=b, classes=["odd-hex", "any", "zero-top-byte", "any", "odd-hex", "any"]))
+        docs[(mode, dim)] = [(o["params"], o["hash"]) for o in out]
     with ThreadPoolExecutor(8) as ex:
-        louts = list(ex.map(lambda it: pipe_loop(cli, base, ctx.seed * 77 + it[0], it[1][0], it[1][1], per), enumerate(loops)))
+        louts = list(ex.map(lambda it: pipe_loop(cli, base, ctx.seed * 77 + it[0], it[1][0], it[1][1], per, docs[it[1]]), enumerate(loops)))
     nshort = 0
     for (mode, dim), (bad, short) in zip(loops, louts):
         nshort += short
@@ -394,7 +403,9 @@ def replay(ctx, path):
     # a specific proof that verify rejected
     f = case["failed"]
     print("failed:", json.dumps(f)[:900])
-    bad, _ = pipe_loop(cli, ctx.scratch, ctx.seed, case["mode"], case["dim"], 200)
+    d, b = DIMS[case["dim"]]
+    out = ctx.run_vh(["gen-params"], dict(mode=case["mode"], depth=d, batch=b, classes=["odd-hex", "any", "zero-top-byte", "any", "odd-hex", "any"]))
+    bad, _ = pipe_loop(cli, ctx.scratch, ctx.seed, case["mode"], case["dim"], 40, [(o["params"], o["hash"]) for o in out])
     for b in bad:
         print("REPRODUCED:", json.dumps(b)[:700])
     return 1 if bad else 0
